@@ -18,6 +18,10 @@ fn main() {
                     e.downcast_ref::<String>().cloned().or_else(|| e.downcast_ref::<&str>().map(|s| s.to_string())).unwrap_or_default()
                 )),
             };
+            let mut r = r;
+            if r.is_ok() && <support::Tracked as support::Pay>::alive() != Some(0) {
+                r = Err(format!("after the case and the drop of its arena {:?} tracked payload(s) are still counted alive (double drop or leak)", <support::Tracked as support::Pay>::alive()));
+            }
             if let Err(m) = r {
                 failures.push((name, literal, m));
             }
